@@ -6,7 +6,7 @@
    the way Deps.v's run_task_effs is parameterised: the configuration cfg, the tree of resolver contexts that resolving
    the task's dependencies opens (rctx; a tree opened only in part - a failure part-way - is a tree), whether resolution
    succeeds, how the task function's body ends; plus what this model does not look at (sync / async, the timeout label,
-   known_tasks, validate_params).  The receiver, its broker, the task function, the message, the task's dependency
+   known_tasks, validate_params, object identities: the function, its original_func, the entry of prepared_handlers).  The receiver, its broker, the task function, the message, the task's dependency
    graph and the resolver context are all that one record seen through different attribute paths.  How the body ends
    (a timeout included) is an input here, so asyncio.wait_for is transparent and `await` just observes the body.
    Trusted like PyPrelude.v: small, literal, no proofs here. *)
@@ -23,7 +23,11 @@ Record dworld := mkworld {
   dw_async : bool;           (* asyncio.iscoroutinefunction(target) *)
   dw_timeout : option Z;     (* message.labels.get("timeout") *)
   dw_known : bool;           (* message.task_name in self.known_tasks *)
-  dw_validate : bool }.      (* self.validate_params *)
+  dw_validate : bool;        (* self.validate_params *)
+  dw_prepared : option nat;  (* self.prepared_handlers.get(message.task_name): the function object (its identity) the caches
+                                of this name were built for, None if the table has no entry.  ANY content *)
+  dw_obj : nat;              (* which object the task function `target` is (its identity) *)
+  dw_original : option nat }.   (* the object target.original_func holds, if target has that attribute *)
 (* the model's `resolution` of this execution *)
 Definition resolution_of (w : dworld) : resolution := if dw_resolve_ok w then RDone (dw_body w) else RFail.
 
@@ -52,6 +56,7 @@ Notation rt_self := (dworld) (only parsing).
 Notation rt_func := (dworld) (only parsing).
 Notation rt_msg := (dworld) (only parsing).
 Notation rt_graph := (dworld) (only parsing).
+Notation rt_obj := (nat) (only parsing).                 (* the identity of a Python object: `a is b` iff the same object *)
 (* the root resolver context of the execution, with its propagate_excs flag (Deps.close_ctx's `pe`; taskiq_dependencies'
    default is True) *)
 Record rt_depctx := mkdepctx { dc_world : dworld; dc_pe : bool }.
@@ -93,6 +98,16 @@ Definition dependency_graphs (s : rt_self) : rt_self := s.
 Definition broker_of (s : rt_self) : rt_self := s.
 Definition executor_of (s : rt_self) : rt_executor := tt.
 Definition propagate_exceptions (s : rt_self) : bool := propagate (dw_cf s).
+(*  self.prepared_handlers.get(name) ; `target` as an operand of `is` ; getattr(target, "original_func", target) ;
+    `a is b` with a an Optional function object (None is no function object), `a is not b` = negb of it *)
+Definition prepared_handlers (s : rt_self) : rt_self := s.
+Definition handlers_get (s : rt_self) (n : rt_name) : option rt_obj := dw_prepared s.
+Definition func_object (f : rt_func) : rt_obj := dw_obj f.
+Definition original_func_or_self (f : rt_func) : rt_obj :=
+  match dw_original f with Some o => o | None => dw_obj f end.
+Definition object_is (a : option rt_obj) (b : rt_obj) : bool :=
+  match a with Some x => Nat.eqb x b | None => false end.
+(*  self._prepare_task(name, target): fills the tables (and prepared_handlers); no event *)
 Definition prepare_task (s : rt_self) (n : rt_name) (f : rt_func) : RM unit := ret tt.
 Definition signatures_get (s : rt_self) (n : rt_name) : option rt_sig := Some tt.
 Definition hints_get (s : rt_self) (n : rt_name) : option rt_hints := Some tt.
